@@ -178,7 +178,7 @@ package diagnostic
 //@ -- classified (or the reverse) makes positions of dependency findings meaningless.
 //@ define (noGaps f) (forall ((k Int)) (=> (and (<= 0 k) (< (+ k 1) (len f.lines))) (<= (- (idx f.lines (+ k 1)) (idx f.lines k)) 1)))
 //@ func NewEngine$1
-//@ prop C14
+//@ prop C14 C18
 //@ requires (and (not (= file nil)) (not (= files nil)))
 //@ assume line-starts-are-offsets (forall ((k Int)) (=> (and (<= 0 k) (< k (len file.lines))) (>= (idx file.lines k) 0)))
 //@ modifies (map files) (obj file)
